@@ -206,7 +206,11 @@ func (r *Recorder) Violation(t TB, sig, msg string, c any) bool {
 				msg = msg[:700]
 			}
 			r.mu.Lock()
-			r.res.Samples = append(r.res.Samples, map[string]any{"kind": "violation", "signature": sig, "message": msg})
+			cj, _ := json.Marshal(c)
+			if len(cj) > 3000 {
+				cj = cj[:3000]
+			}
+			r.res.Samples = append(r.res.Samples, map[string]any{"kind": "violation", "signature": sig, "message": msg, "case_json": string(cj)})
 			r.mu.Unlock()
 		}
 		return false
